@@ -168,9 +168,11 @@ fn run_case(ctx: &mut Ctx, t: &Tables, pay: &[u8], c: Cfg, plen: usize, lim: Opt
 //   + 1                      ARP: 13 stackings x 5 packets
 //   + 8                      all 2^9 TCP flag subsets: 2 carriers x 4 option lists
 //   + 8                      raw write with every ip number 0..=255 on every net
-//   + 5                      fragmenting IPv4 headers: one unit per ip(IpHeaders::Ipv4) net
+//   + 5 + 2                  fragmenting headers: one unit per ip(IpHeaders::Ipv4) net; IPv6 fragment header in small / maximum-size chains
 //   + N                      limit sweeps: one unit per net
-const FRAG_UNITS: u64 = 5;
+const FRAG_UNITS: u64 = 5 + 2;
+/// (M, fragment offset) of the fragmenting IPv6 fragment headers
+const FRAGS6: &[(bool, u16)] = &[(true, 0), (false, 1), (true, 1), (true, 181), (false, 0x1fff), (true, 0x1fff)];
 /// (MF, fragment offset in 8 byte units) of the fragmenting headers; each with DF 0 and 1
 const FRAGS: &[(bool, u16)] = &[(true, 0), (false, 1), (true, 1), (true, 185), (false, 0x1fff), (true, 0x1fff)];
 
@@ -235,7 +237,7 @@ impl Check for C10 {
              x {} transports {{udp | tcp x 4 option lists (none, MSS, MSS+WS+SACKperm+TS via options(), 40 bytes via options_raw()) x flags (none, all) | tcp_header x 2 | icmpv4 x all {} typed variants | icmpv4_raw x {} | icmpv4 echo helpers | icmpv6 x all {} typed variants | icmpv6_raw x {} | icmpv6 echo helpers | raw write(ip number 253, 59)}} \
              x payload lengths {}{}; plus arp x 5 packets (hw/proto address sizes 0, 1, 6/4, 16, 255) on the 13 link stackings that offer it; all 2^9 TCP flag subsets on ethernet2/ipv4 and ip/ipv6 x 4 option lists x the payload lengths; raw write with every ip number 0..=255 on every net; \
              fragmenting IPv4 headers: the 5 ip(Ipv4) nets x 14 stackings x 7 transports {{udp, tcp x 2, icmpv4 echo, raw 253/17/6}} x (MF, offset) in {{(1,0),(0,1),(1,1),(1,185),(0,8191),(1,8191)}} x DF {{0,1}} x the payload lengths (+ total-length limit-2..=limit+2 on one stacking), \
-             oracle there: same size/bytes through all three writers, bytes identical to the (DF 1, MF 0, offset 0) sibling except flags/offset word and header checksum, the word carries exactly the supplied bits, header checksum verifies, strict parser accepts, returns the fragment fields, flags the payload as fragmented, decodes no transport and hands out the bytes behind the IP layer; Err iff the sibling is refused; \
+             oracle there: same size/bytes through all three writers, bytes identical to the (DF 1, MF 0, offset 0) sibling except flags/offset word and header checksum, the word carries exactly the supplied bits, header checksum verifies, strict parser accepts, returns the fragment fields, flags the payload as fragmented, decodes no transport and hands out the bytes behind the IP layer; Err iff the sibling is refused; the same for ip(Ipv6) with a fragment header (all 24 slot subsets that contain it, small and maximum size) whose (M, offset) is one of {{(1,0),(0,1),(1,1),(1,181),(0,8191),(1,8191)}} on 5 transports: only the offset/M word of the fragment header may differ from the (0,0) sibling; \
              and on one stacking per (net, transport) every payload length in limit{} of the governing length field (IPv4 total length, IPv6 payload length, UDP length) for {} transports. payload[i] = i*7+3. \
              oracle: size(), write, write_to_vec, write_to_slice never panic, succeed together, give identical bytes of length size(); the reference decoder (own code from RFC 791/8200/4302/768/9293/792/4443/826, 802.1Q, LINUX_SLL; strict: every length field == real size, IPv4 header / UDP / TCP / ICMP checksums verify by an own RFC 1071 sum over an own pseudo header, UDP checksum != 0, every ether type / protocol number / next header decodes as the layer it names) and SlicedPacket::from_ethernet/from_linux_sll/from_ip accept the bytes and give back every configured field, option, extension header (RFC 8200 order) and the payload; \
              Err (all three writers) iff payload exceeds the governing field or ICMPv6 sits on IPv4, and bytes written before the error contain no length field that differs from the real size. \
@@ -280,6 +282,10 @@ impl Check for C10 {
             "ok:fragmenting:mf-only",
             "ok:fragmenting:df-clear",
             "err:fragmenting:payload-too-big",
+            "ok:fragmenting6:offset",
+            "ok:fragmenting6:m-only",
+            "ok:fragmenting6:headers-behind-fragment-header",
+            "err:fragmenting6:payload-too-big",
         ]
         .iter()
         .map(|s| s.to_string())
@@ -387,8 +393,65 @@ impl Check for C10 {
         }
         u -= 8;
 
+        // ---- fragmenting IPv6 fragment headers (unit 5: small extension headers, unit 6: maximum size)
+        if u >= 5 && u < FRAG_UNITS {
+            let big = u == 6;
+            for net in ns.iter().copied().filter(|n| matches!(n, NetC::V6Hdr { mask, big: b } if mask & 16 != 0 && *b == big)) {
+                let NetC::V6Hdr { mask, .. } = net else { unreachable!() };
+                let frag_pos = 40 + v6_ext_layers(mask, big).iter().take_while(|(k, _)| *k != 44).map(|(_, b)| 2 + b.len()).sum::<usize>();
+                for (si, &(link, vlan)) in st.iter().enumerate() {
+                    // every stacking for the chains with all / only the fragment slot, three stackings for the others
+                    if !(mask == 16 || mask == 0x3f || si % 5 == (mask as usize) % 5) {
+                        continue;
+                    }
+                    for tr in [TrC::Udp, TrC::Tcp { flags: 0x012, opts: 2 }, TrC::Icmp6EchoReq, TrC::Raw(253), TrC::Raw(17)] {
+                        let c = Cfg { link, vlan, net, tr };
+                        let mut ls = lens.clone();
+                        if si == (mask as usize) % st.len() {
+                            let lim = limit(&c, &t);
+                            ls.extend(lim - 2..=lim + 2);
+                        }
+                        for &(mf, off) in FRAGS6 {
+                            for &plen in &ls {
+                                ctx.case(
+                                    None,
+                                    || CaseDesc {
+                                        shape: format!("{}-fragmenting", shape(&c)),
+                                        text: format!("{} but with fragment header (offset {}, M {}) ; payload = {} bytes, payload[i] = (i*7+3) mod 256 ; compared with the same configuration as shown (offset 0, M 0)", chain(&c, &t), off, mf, plen),
+                                        rank: (complexity(&c) + 20) * 1_000_000 + plen as u64,
+                                    },
+                                    |case| {
+                                        let o = frag::check_v6(&c, &t, &pay[..plen], mf, off, frag_pos, case);
+                                        case.nontrivial();
+                                        match o {
+                                            Outcome::Ok => {
+                                                case.reach(if off != 0 { "ok:fragmenting6:offset" } else { "ok:fragmenting6:m-only" });
+                                                if mask & 0x28 != 0 {
+                                                    case.reach("ok:fragmenting6:headers-behind-fragment-header");
+                                                }
+                                                case.outcome(format!("ok:frag6:{}", shape(&c)));
+                                            }
+                                            Outcome::Err(class) => {
+                                                case.reach("err:fragmenting6:payload-too-big");
+                                                case.outcome(format!("err:frag6:{}:{}", class, shape(&c)));
+                                            }
+                                            Outcome::Bad => case.outcome(format!("violation:frag6:{}", shape(&c))),
+                                        }
+                                    },
+                                );
+                                if ctx.done() {
+                                    return;
+                                }
+                            }
+                        }
+                    }
+                }
+            }
+            return;
+        }
+
         // ---- fragmenting IPv4 headers
-        if u < FRAG_UNITS {
+        if u < 5 {
             let net = ns.iter().copied().filter(|n| matches!(n, NetC::V4Hdr { .. })).nth(u as usize).expect("five ip(IpHeaders::Ipv4) nets");
             for (si, &(link, vlan)) in st.iter().enumerate() {
                 for tr in frag_transports() {
